@@ -582,7 +582,10 @@ class ConcurrentVector {
     ++e;
     auto it = begin();
     it += (pos - it);
-    return std::move(pos + 1, const_iterator(e), it);
+    auto newEnd = std::move(pos + 1, const_iterator(e), it);
+    // The last element has been moved from and is no longer part of the vector.
+    newEnd->~T();
+    return newEnd;
   }
 
   /**
@@ -602,14 +605,12 @@ class ConcurrentVector {
     }
     it += startIdx;
 
-    auto e_it = std::move(last, cend(), it);
+    auto oldEnd = end();
+    auto e_it = std::move(last, const_iterator(oldEnd), it);
 
-    if (e_it < last) {
-      // remove any values that were not already moved into
-      do {
-        --last;
-        last->~T();
-      } while (e_it != last);
+    // Destroy the len vacated (moved-from or erased) elements at the tail.
+    for (auto d = e_it; d != oldEnd; ++d) {
+      d->~T();
     }
     size_.fetch_sub(len, std::memory_order_relaxed);
     return e_it;
